@@ -79,7 +79,7 @@ var FaultKinds = []string{
 	"omit-param-TYPE", "omit-param-ENUM", "omit-param-MACRO", "omit-param-PASTE", "omit-param-TAG", "omit-param-Tags", "omit-param-Protocol",
 	"omit-param-Method", "omit-param-JSIGHT", "omit-param-BaseUrl", "omit-param-SERVER", "omit-param-Title", "omit-param-Version", "omit-param-URL",
 	"undefined-type-shortcut", "undefined-type-array", "undefined-type-rule", "undefined-type-allOf", "undefined-type-param", "undefined-type-or",
-	"undefined-enum", "undefined-macro", "undefined-tag", "undefined-tag-like-auto", "undefined-tag-second-Tags", "similar-path-leading-param", "dup-through-second-PASTE", "second-Body-after-own-body",
+	"undefined-enum", "undefined-macro", "undefined-tag", "undefined-tag-like-auto", "undefined-tag-second-Tags", "similar-path-leading-param", "dup-through-second-PASTE", "second-Body-after-own-body", "second-Title-after-empty-value", "second-Version-after-empty-value", "bad-rule-value-in-used-type",
 }
 
 // InjectFault puts exactly one fault of a drawn kind into a copy of the valid
@@ -267,6 +267,16 @@ func InjectFaultOfKind(t *rapid.T, doc0 *Doc, only string) (*Doc, Fault, bool) {
 				return []int{d.ID, c.ID}
 			})
 		}
+		if (d.Kw == "Title" || d.Kw == "Version") && parent != nil {
+			// the first one has an empty (quoted) value, a second one follows
+			add("second-"+d.Kw+"-after-empty-value", func() []int {
+				c := f.fresh(d)
+				lst, i := doc.listOf(d)
+				*lst = insertAfter(*lst, i, c)
+				d.Params = []string{""}
+				return []int{d.ID, c.ID}
+			})
+		}
 		if (IsCode(d.Kw) || d.Kw == "Request") && d.Schema != nil && d.Child("Body") == nil {
 			// the body is given on the directive itself and once more as a Body child
 			add("second-Body-after-own-body", func() []int {
@@ -367,6 +377,42 @@ func InjectFaultOfKind(t *rapid.T, doc0 *Doc, only string) (*Doc, Fault, bool) {
 		pd := &Dir{ID: f.id(), Kw: "PASTE", Params: []string{"@undefinedMacro"}}
 		doc.Top = insertAfter(doc.Top, 0, pd)
 		return []int{pd.ID}
+	})
+	// a chain of fresh types, each used by the previous one, with a rule whose
+	// value has the wrong type in one of the used ones: the diagnostic belongs to
+	// that type's directive however deep it is used and wherever it is declared
+	add("bad-rule-value-in-used-type", func() []int {
+		n := f.id()
+		depth := rapid.IntRange(2, 4).Draw(t, "chainDepth")
+		faultAt := rapid.IntRange(1, depth-1).Draw(t, "chainFaultAt")
+		var dirs []*Dir
+		var off []int
+		for i := 0; i < depth; i++ {
+			name := fmt.Sprintf("@zzchain%d_%d", n, i)
+			var body []string
+			switch {
+			case i == faultAt:
+				body = []string{"{", "  \"n\": 1 // {min: \"zz\"}", "}"}
+			default:
+				body = []string{"{", "  \"k\": 1", "}"}
+			}
+			if i+1 < depth {
+				body = append(body[:len(body)-1], fmt.Sprintf("  , \"next\": @zzchain%d_%d", n, i+1), "}")
+			}
+			d := &Dir{ID: f.id(), Kw: "TYPE", Params: []string{name}, Schema: &Schema{Notation: "jsight", Raw: body}}
+			if i == faultAt {
+				off = []int{d.ID}
+			}
+			dirs = append(dirs, d)
+		}
+		for _, d := range dirs {
+			pos := rapid.IntRange(0, len(doc.Top)-1).Draw(t, "chainPos")
+			for pos+1 < len(doc.Top) && doc.Top[pos+1].Hoisted {
+				pos++
+			}
+			doc.Top = insertAfter(doc.Top, pos, d)
+		}
+		return off
 	})
 	// one declaration brought in twice by PASTE: the same macro pasted a second
 	// time, directly or through another macro
@@ -558,6 +604,22 @@ func InjectBodyFault(t *rapid.T, doc0 *Doc) (*Doc, bool) {
 	doc := doc0.Copy()
 	var sites []func()
 	doc.Walk(func(d, parent *Dir) {
+		if d.Kw == "ENUM" && d.Enum != nil {
+			// a declaration that lost its body; moved to the end of the file half of
+			// the time (the last line of a file is read a little differently)
+			sites = append(sites, func() {
+				d.Enum = nil
+				if parent == nil && rapid.Bool().Draw(t, "enumLast") {
+					var top []*Dir
+					for _, x := range doc.Top {
+						if x != d {
+							top = append(top, x)
+						}
+					}
+					doc.Top = append(top, d)
+				}
+			})
+		}
 		if d.Kw != "Request" && !IsCode(d.Kw) {
 			return
 		}
